@@ -53,7 +53,10 @@ impl OpCase {
         BigUint::parse_bytes(self.big[i].as_bytes(), 16).unwrap_or_default()
     }
     pub fn static_key(&self) -> String {
-        format!("{}|{:?}|{:?}|{}|{}|{}|{}", self.op, self.p, self.big, self.ins.len(), self.bins.len(), self.cols, self.mbl)
+        // (the computed exposure of a point lays out another circuit for the identity, which has
+        //  no affine coordinates: part of the static description)
+        let identity = self.op.starts_with("pi.") && self.op.ends_with("point.computed") && self.bins.first().map(|b| b.trim_start_matches('0').is_empty()).unwrap_or(false);
+        format!("{}|{:?}|{:?}|{}|{}|{}|{}{}", self.op, self.p, self.big, self.ins.len(), self.bins.len(), self.cols, self.mbl, if identity { "|identity" } else { "" })
     }
 }
 
